@@ -151,11 +151,13 @@ package xmss
 //@   names hashFunction:xmss.HashFunction out:[]uint8 in:[]uint8 start:uint32 steps:uint32 params:*xmss.WOTSParams pubSeed:[]uint8 addr:*[8]uint32 |  | j:uint32@1i i:uint32@2i
 //@   alias in out same
 //@   use xmss.L_randF_cong
+//@   uselate xmss.L_chain_cong2
 //@   hide spec.randF
 //@   requires wotsOK(params) && len(out) >= 32 && len(in) >= 32 && len(pubSeed) >= 32
 //@   requires[XF] start + steps <= params.w - 1
 //@   ensures forall k_ :: 0 <= k_ && k_ < 6 ==> addr[k_] == old(addr[k_])
 //@   ensures[XF] hashFunction <= 2 ==> forall q :: 0 <= q && q < 32 ==> out[q] == spec.chain(hashFunction, spec.sub(pubSeed, 32), arr(old(addr)), spec.sub(old(in), 32), start, steps)[q]
+//@   ensures[XF] hashFunction <= 2 ==> forall A2:arr, s2, k2, q :: (forall w_ :: 0 <= w_ && w_ < 6 ==> A2[w_] == old(addr[w_])) && s2 == start && k2 == steps && 0 <= q && q < 32 ==> out[q] == spec.chain(hashFunction, spec.sub(pubSeed, 32), A2, spec.sub(old(in), 32), s2, k2)[q]
 //@   assigns out, *addr
 //@   loop 1 invariant 0 <= j && j <= params.n
 //@   loop 1 invariant[XF] (forall q :: 0 <= q && q < j ==> out[q] == old(in[q])) && forall q :: 0 <= q && q < 32 ==> in[q] == old(in[q])
